@@ -112,6 +112,10 @@ class C07(Check):
             pairs_ = [pairs_[i] for i in sorted(rng.choice(len(pairs_), 12, replace=False))]
         for a, b in pairs_:
             strat.append(dict(kind="two-handles", ops=[["cross", a], ["cross_new", b]], final=a))
+        # same edges, other closed side (also for the one-bin binnings): the cached marker must tell them apart
+        for a, b in (("E-right", "E-left"), ("E-left", "E-right"), ("one-bin", "one-bin-left"), ("one-bin-left", "one-bin")):
+            for op in ("cross", "auto", "build"):
+                strat.append(dict(kind="closed-pairs", ops=[[op, a] if op != "build" else ["build", "ref", a, False]], final=b))
         # mixed caches: measure with A, rebuild ONE patch of a binned catalog for B, measure with A or B
         mixed = [(a, b, cat, pid) for a in CORE6 for b in CORE6 if a != b for cat in ("ref", "rr") for pid in (0, 1, 2)]
         if q:
